@@ -459,7 +459,7 @@ pub fn run(ctx: &Ctx, rep: &mut Report) {
             if !rc {
                 args.push("--single-strand");
             }
-            let _ = std::fs::remove_file(format!("{dir}/rd.skf"));
+            scratch::stale(&format!("{dir}/rd.skf"));
             let o = cli::run(&args, &dir, None);
             let got = cli::run(&["nk", "--full-info", "rd.skf"], &dir, None);
             let rows = cli::parse_nk(&got.stdout).map(|n| n.rows).unwrap_or_default();
@@ -500,7 +500,7 @@ pub fn run(ctx: &Ctx, rep: &mut Report) {
                 if !rc {
                     args.push("--single-strand");
                 }
-                let _ = std::fs::remove_file(format!("{dir}/rd1.skf"));
+                scratch::stale(&format!("{dir}/rd1.skf"));
                 let o = cli::run(&args, &dir, None);
                 let got = cli::run(&["nk", "--full-info", "rd1.skf"], &dir, None);
                 let nk = cli::parse_nk(&got.stdout);
